@@ -16,13 +16,14 @@ var ErrInjected = errors.New("injected transport failure")
 // delivers only the next k bytes, answers with an empty timed-out read, adds io.EOF to the last chunk, or fails the
 // read with an I/O error / closes the stream.
 type Frag struct {
-	C    *explore.Ctx
-	Kind Kind
+	C       *explore.Ctx
+	Kind    Kind
+	stalled bool // the "stall" fault was taken: the line stays silent until the client's total read timeout
 }
 
 func (p *Frag) Read(t *Transport, bufLen int) ReadAnswer {
 	r := t.Remaining()
-	if r == 0 {
+	if r == 0 || p.stalled {
 		// the complete reply has been delivered and the client still reads: the line stays silent
 		if p.Kind.IsSerial() {
 			return ReadAnswer{Timeout: true, Label: "silent"}
@@ -48,7 +49,7 @@ func (p *Frag) Read(t *Transport, bufLen int) ReadAnswer {
 			alts = append(alts, ReadAnswer{Timeout: true, Err: TimeoutErr(), Label: "empty"})
 		}
 	}
-	if !p.Kind.IsSerial() && p.C.Left("eof") > 0 && r <= bufLen {
+	if p.C.Left("eof") > 0 && r <= bufLen { // (a serial port may do this as well: io.Reader allows n > 0 together with io.EOF)
 		alts = append(alts, ReadAnswer{N: r, Err: io.EOF, Label: "eof"})
 	}
 	if p.C.Left("fault") > 0 {
@@ -56,9 +57,19 @@ func (p *Frag) Read(t *Transport, bufLen int) ReadAnswer {
 		if !p.Kind.IsSerial() {
 			alts = append(alts, ReadAnswer{Err: io.EOF, Label: "fault"})
 		}
+		// stall: from here on nothing arrives any more (the call runs into its total read timeout)
+		if p.Kind.IsSerial() {
+			alts = append(alts, ReadAnswer{Timeout: true, Label: "fault-stall"})
+		} else {
+			alts = append(alts, ReadAnswer{Timeout: true, Err: TimeoutErr(), Label: "fault-stall"})
+		}
 	}
 	i := p.C.Choose(len(alts), "read")
 	a := alts[i]
+	if a.Label == "fault-stall" {
+		p.stalled = true
+		a.Label = "fault"
+	}
 	if a.Label != "all" {
 		p.C.Spend(a.Label)
 	}
